@@ -25,6 +25,7 @@ THEOREMS = [
     ("QcelVerif.PT.aliases_agree", "for all 118 element rows: int Z, str Z, symbol, name resolve (strict or not) to the row's symbol and return its Z/E/name"),
     ("QcelVerif.PT.nuclides_resolve", "for all nuclide rows: the label resolves to its own key, E, Z, A, mass; strict mode accepts it iff it is a bare element symbol"),
     ("QcelVerif.PT.nuclides_resolve_anycase", "lower/upper spelling of every nuclide label resolves to the same key (kernel instances of case-insensitivity)"),
+    ("QcelVerif.PT.masses_float_nearest", "for all nuclide rows: the model's float(mass) (Dec.toF64 of the decimal text) is the double nearest to the tabulated Decimal, ties to even (independent predicate); the correspondence compares these IEEE bit patterns with the implementation's to_mass()"),
     ("QcelVerif.PT.resolve_case_insensitive", "ANY table, ANY two ASCII texts equal after lower-casing resolve identically (all 2^|s| casings)"),
     ("QcelVerif.PT.accessors_case_insensitive", "all seven accessors inherit case-insensitivity"),
     ("QcelVerif.PT.no_wrong_species", "a successful lookup is justified by one of: capitalised text is a nuclide key / int value is a tabulated Z / capitalised text is an element name"),
@@ -113,7 +114,7 @@ def hexs(s: str) -> str:
     return s.encode("ascii").hex()
 
 
-ACCS = [("Z", 0), ("Z", 1), ("E", 0), ("E", 1), ("name", 0), ("name", 1), ("A", 0), ("mass", 0), ("period", 0), ("group", 0)]
+ACCS = [("Z", 0), ("Z", 1), ("E", 0), ("E", 1), ("name", 0), ("name", 1), ("A", 0), ("mass", 0), ("massbits", 0), ("period", 0), ("group", 0)]
 
 
 def call_impl(pt, acc, strict, arg):
@@ -139,6 +140,10 @@ def call_impl(pt, acc, strict, arg):
                 if abs(Fraction(nb) - dr) < abs(fr - dr):
                     return f"ok {d} FLOAT-NOT-NEAREST {f!r}"
             return "ok " + str(d)
+        if acc == "massbits":
+            import struct
+
+            return "ok " + str(struct.unpack(">Q", struct.pack(">d", pt.to_mass(arg)))[0])
         if acc == "period":
             return "ok " + str(pt.to_period(arg))
         if acc == "group":
@@ -250,6 +255,10 @@ def run(ctx: Ctx) -> Outcome:
                 want = "err NotAnElement"
             else:
                 want = {"Z": str(z), "E": sym, "name": nm, "A": str(a), "mass": mass}.get(acc)
+                if acc == "massbits":
+                    import struct
+
+                    want = str(struct.unpack(">Q", struct.pack(">d", float(mass)))[0])
                 if acc in ("period", "group"):
                     if sym == "X":
                         want = None  # the dummy has no position in the textbook table; model diff only
